@@ -12,10 +12,14 @@ import (
 	"github.com/yorkie-team/yorkie/pkg/document/presence"
 )
 
+var noMoveSet = false
+
 func randomArrayOp(rng *rand.Rand, r *json.Object, log *[]string) {
 	a := r.GetArray("a")
 	n := a.Len()
 	switch k := rng.Intn(6); {
+	case noMoveSet && (k == 2 || k == 4 || k == 5):
+		return
 	case k == 0 || n == 0:
 		v := rng.Intn(100); a.AddInteger(v); *log = append(*log, fmt.Sprintf("add %d", v))
 	case k == 1:
